@@ -1,4 +1,5 @@
 """dict views as iterables, comprehensions over sequences, dict merging, bool operators, any/all, conditional functions."""
+import itertools
 
 
 def keys_set(d):
@@ -207,6 +208,12 @@ def gen_to_list(xs):
 
 def extend_lazy(xs, src):
     xs.extend(g for g in src if g not in xs)
+    return xs
+
+
+def extend_lazy_other(xs, src):
+    # a lazily evaluated generator reading the list it extends, NOT of the de-duplicating form: refused
+    xs.extend(g + len(xs) for g in src)
     return xs
 
 
@@ -420,4 +427,35 @@ def extend_dedupe(xs, src):
 def extend_dedupe_small(a, b):
     out = []
     out.extend(g for g in (a, b, a) if g not in out)
+    return out
+
+
+def only_member(groups, k):
+    # round 4 (C05 #16): `(x,) = S` for a set S
+    (g,) = groups[k]
+    return g
+
+
+def product_count(xs, ys):
+    # round 4 (C05 #16): itertools.product consumed by a `for`
+    n = 0
+    for a, b in itertools.product(xs, ys):
+        if a >= 0 and b >= 0:
+            n += 1
+    return n
+
+
+def product_all(xs, ys):
+    return all(a + b >= 0 for a, b in itertools.product(xs, ys))
+
+
+def product_small(x, y):
+    return [a * 10 + b for a, b in itertools.product((x, 2), (y, 4))]
+
+
+def sorted_items_tuple_keys(d):
+    # round 4 (C05 #16): sorted(d.items()) for a dict keyed by tuples of strings -- the items ordered by key
+    out = []
+    for k, v in sorted(d.items()):
+        out.append(k)
     return out
